@@ -107,13 +107,16 @@ def inproc(R, dud, drv, rng, tier, runs):
     base = tempfile.mkdtemp(prefix="c13.", dir=vlib.scratch())
     lines = []
     k = 0
+    shape_entries = {}
+    twin_checks = []
     for kind in ("deep", "wide", "mixed"):
         for shared, ded in (POOLS if tier == "thorough" else [(0, 1), (2, 1), (64, 2)]):
             k += 1
             work = os.path.join(base, "w%d" % k)
             cache = os.path.join(base, "c%d" % k)
             os.makedirs(work)
-            for e in shape(rng, kind, "quick"):
+            shape_entries[k] = shape(rng, kind, "quick")
+            for e in shape_entries[k]:
                 p = os.path.join(work, os.fsdecode(e[1]))
                 if e[0] == "dir":
                     os.makedirs(p, exist_ok=True)
@@ -122,8 +125,35 @@ def inproc(R, dud, drv, rng, tier, runs):
                     open(p, "wb").write(s1.content_bytes(e[2]))
             if k % 3 == 0:
                 os.mkfifo(os.path.join(work, "art", "zz.pipe"))            # a failing entry: commit must return an error and clean up
-            lines.append("commit link %d %d %s %s art -" % (shared, ded, work, cache))
-            lines.append("statusshort link %d %d %s %s art -" % (shared, ded, work, cache))
+            a = "%d %d %s %s art" % (shared, ded, work, cache)
+            lines.append("commit link %s -" % a)
+            lines.append("statusshort link %s -" % a)
+            if k % 3 != 0:
+                # the committed artifact, then states in which Status returns early or with an error: a tracked entry modified, one
+                # removed, the manifest of a sub-directory unreadable — both forms of Status; whatever it answers, nothing it started
+                # may outlive the call
+                tracked = sorted(os.fsdecode(e[1]) for e in shape_entries[k] if e[0] == "file")
+                lines += ["statusshort link %s =" % a, "status link %s =" % a]
+                if tracked:
+                    lines += ["fswrite %s changed-by-the-harness" % os.path.join(work, tracked[len(tracked) // 2]), "statusshort link %s =" % a,
+                              "status link %s =" % a, "fsrm %s" % os.path.join(work, tracked[0]), "statusshort link %s =" % a]
+                lines += ["breaksubman %s" % cache, "statusshort link %s =" % a, "status link %s =" % a, "checkout copy %s =" % a]
+    # twin sub-directories: identical names and contents under different parents share ONE manifest object; one of them changes and
+    # the artifact is committed again in the same process (whatever is remembered between the two commits is shared by the twins)
+    for shared, ded in ([(2, 1), (64, 4)] if tier == "quick" else POOLS):
+        k += 1
+        work, cache = os.path.join(base, "w%d" % k), os.path.join(base, "c%d" % k)
+        for par in range(6):
+            d_ = os.path.join(work, "art", "p%d" % par, "sub")
+            os.makedirs(d_)
+            for j in range(8):
+                open(os.path.join(d_, "f%d" % j), "wb").write(b"twin content %d" % j)
+        a = "%d %d %s %s art" % (shared, ded, work, cache)
+        lines.append("commit link %s -" % a)
+        for par in range(3):
+            lines.append("fswrite %s edited-%d" % (os.path.join(work, "art", "p%d" % par, "sub", "f%d" % par), par))
+        lines += ["commit link %s =" % a, "status link %s =" % a]
+        twin_checks.append((len(lines) - 1, work, cache))
     p = subprocess.run([h, "pool"], input=("\n".join(lines) + "\n").encode(), stdout=subprocess.PIPE, stderr=subprocess.PIPE, timeout=1200,
                        env=dict(os.environ, GORACE="halt_on_error=0"))
     out = p.stdout.decode().split("\n")[:-1]
@@ -135,9 +165,15 @@ def inproc(R, dud, drv, rng, tier, runs):
         if "hang" in o:
             viol.append("%s: did not return within the watchdog (%s)" % (ln.split(" /")[0], o))
             continue
+        if o.startswith("edit="):
+            continue
         g = o.split("goroutines=")[1].split()[0].split("/")
         if int(g[1]) > int(g[0]):
             viol.append("%s: %s goroutines before, %s after the call returned (a goroutine outlives the call)" % (ln.split(" /")[0], g[0], g[1]))
+    for idx, work, cache in twin_checks:
+        # the status straight after the second commit of the twins: everything is up to date
+        if idx < len(out) and "cm=true" not in out[idx]:
+            viol.append("twin sub-directories, one edited, committed again in one process: Status straight after the commit answers %r" % out[idx])
     if len(out) < len(lines):
         viol.append("harness stopped after %d of %d operations: %s" % (len(out), len(lines), p.stderr.decode(errors="replace")[-400:]))
     if viol:
